@@ -371,3 +371,69 @@ fire('c06-point-rewritten', 'C06', M, 'Method.UpdateOptimum', 'self.searchData.s
 fire('c06-listener-writes-item', 'C06', 'iOpt/output_system/console/console_output.py',
      'FunctionConsoleFullOutput.printIterPointInfo', 'value = savedNewPoints[0].GetZ()',
      'value = savedNewPoints[0].GetZ()\n        savedNewPoints[0].functionValues[0].value = round(value, 6)', 'R06.8')
+
+# ----------------------------------------------------------------------------- C19
+DQ = 'SearchDataDualQueue'
+fire('c19-dual-relink', 'C19', SD, f'{DQ}.InsertDataItem', '        newDataItem.SetRight(rightDataItem)\n',
+     '        newDataItem.SetLeft(rightDataItem)\n', 'R19.1')
+fire('c19-dual-no-append', 'C19', SD, f'{DQ}.InsertDataItem', '        self._allTrials.append(newDataItem)\n', '', 'R19.1')
+fire('c19-dual-global-missing', 'C19', SD, f'{DQ}.InsertDataItem',
+     '            self._RGlobalQueue.Insert(rightDataItem.globalR, rightDataItem)\n', '', 'R19.1')
+fire('c19-dual-local-key', 'C19', SD, f'{DQ}.InsertDataItem', 'self.__RLocalQueue.Insert(newDataItem.localR, newDataItem)',
+     'self.__RLocalQueue.Insert(newDataItem.globalR, newDataItem)', None)
+fire('c19-base-relink', 'C19', SD, 'SearchData.InsertDataItem', '        rightDataItem.SetLeft(newDataItem)\n', '', 'R19.1')
+fire('c19-lookup-ge', 'C19', SD, 'SearchData.FindDataItemByOneDimensionalPoint', 'if item.GetX() > x:',
+     'if item.GetX() >= x:', 'R19.2')
+fire('c19-lookup-lt', 'C19', SD, 'SearchData.FindDataItemByOneDimensionalPoint', 'if item.GetX() > x:',
+     'if item.GetX() < x:', 'R19.2')
+fire('c19-lookup-left', 'C19', SD, 'SearchData.FindDataItemByOneDimensionalPoint', 'return item\n',
+     'return item.GetLeft()\n', 'R19.2')
+twin('c19-lookup-commuted', 'C19', SD, 'SearchData.FindDataItemByOneDimensionalPoint', 'if item.GetX() > x:',
+     'if x < item.GetX():')
+fire('c19-iter-second', 'C19', SD, 'SearchData.__iter__', 'self.curIter = self.__firstDataItem',
+     'self.curIter = self.__firstDataItem.GetRight()', 'R19.4')
+fire('c19-next-left', 'C19', SD, 'SearchData.__next__', 'self.curIter = self.curIter.GetRight()',
+     'self.curIter = self.curIter.GetLeft()', 'R19.4')
+fire('c19-next-skips', 'C19', SD, 'SearchData.__next__', 'self.curIter = self.curIter.GetRight()',
+     'self.curIter = self.curIter.GetRight().GetRight()', 'R19.4')
+fire('c19-next-returns-next', 'C19', SD, 'SearchData.__next__',
+     '            tmp = self.curIter\n            self.curIter = self.curIter.GetRight()\n            return tmp',
+     '            self.curIter = self.curIter.GetRight()\n            return self.curIter', 'R19.4')
+fire('c19-insert-key-item', 'C19', SD, 'SearchData.InsertDataItem', 'self._RGlobalQueue.Insert(newDataItem.globalR, newDataItem)',
+     'self._RGlobalQueue.Insert(rightDataItem.globalR, newDataItem)', 'R19.5')
+fire('c19-refill-localkey', 'C19', SD, f'{DQ}.RefillQueue', 'self._RGlobalQueue.Insert(itr.globalR, itr)',
+     'self._RGlobalQueue.Insert(itr.localR, itr)', 'R19.5')
+fire('c19-depq-order', 'C19', SD, 'CharacteristicsQueue.Insert', 'self.__baseQueue.insert(dataItem, key)',
+     'self.__baseQueue.insert(key, dataItem)', 'R19.5')
+fire('c19-poplast', 'C19', SD, 'CharacteristicsQueue.GetBestItem', 'self.__baseQueue.popfirst()',
+     'self.__baseQueue.poplast()', 'R19.5')
+fire('c19-refill-noclear', 'C19', SD, 'SearchData.RefillQueue', '        self._RGlobalQueue.Clear()\n', '', 'R19.7')
+fire('c19-refill-dual-noclear', 'C19', SD, f'{DQ}.RefillQueue', '        self.ClearQueue()\n', '', 'R19.7')
+fire('c19-refill-skip', 'C19', SD, 'SearchData.RefillQueue', '            self._RGlobalQueue.Insert(itr.globalR, itr)',
+     '            if itr.globalR > 0:\n                self._RGlobalQueue.Insert(itr.globalR, itr)', 'R19.7')
+fire('c19-refill-dual-onequeue', 'C19', SD, f'{DQ}.RefillQueue', '            self.__RLocalQueue.Insert(itr.localR, itr)\n', '',
+     'R19.7')
+fire('c19-lazy-eq', 'C19', SD, f'{DQ}.GetDataItemWithMaxGlobalR', 'while bestItem[1] != bestItem[0].globalR:',
+     'while bestItem[1] == bestItem[0].globalR:', 'R19.6')
+fire('c19-lazy-localkey', 'C19', SD, f'{DQ}.GetDataItemWithMaxGlobalR', 'while bestItem[1] != bestItem[0].globalR:',
+     'while bestItem[1] != bestItem[0].localR:', 'R19.6')
+fire('c19-lazy-noloop', 'C19', SD, f'{DQ}.GetDataItemWithMaxLocalR', 'while bestItem[1] != bestItem[0].localR:',
+     'while False:', 'R19.6')
+fire('c19-lazy-returns-key', 'C19', SD, f'{DQ}.GetDataItemWithMaxLocalR', 'return bestItem[0]', 'return bestItem[1]',
+     'R19.6')
+fire('c19-lazy-wrong-queue', 'C19', SD, f'{DQ}.GetDataItemWithMaxLocalR',
+     '            bestItem = self.__RLocalQueue.GetBestItem()\n        return bestItem[0]',
+     '            bestItem = self._RGlobalQueue.GetBestItem()\n        return bestItem[0]', None)
+fire('c19-lazy-no-refill', 'C19', SD, f'{DQ}.GetDataItemWithMaxGlobalR',
+     '            if self._RGlobalQueue.IsEmpty():\n                self.RefillQueue()\n            bestItem = self._RGlobalQueue.GetBestItem()',
+     '            bestItem = self._RGlobalQueue.GetBestItem()', 'R19.6')
+fire('c19-maxlen-dropped', 'C19', SD, 'CharacteristicsQueue.__init__', 'DEPQ(iterable=None, maxlen=maxlen)',
+     'DEPQ(iterable=None, maxlen=None)', 'R19.8')
+fire('c19-maxlen-sd', 'C19', SD, 'SearchData.__init__', 'self._RGlobalQueue = CharacteristicsQueue(maxlen)',
+     'self._RGlobalQueue = CharacteristicsQueue(None)', 'R19.8')
+fire('c19-maxlen-dual', 'C19', SD, f'{DQ}.__init__', 'self.__RLocalQueue = CharacteristicsQueue(maxlen)',
+     'self.__RLocalQueue = CharacteristicsQueue(None)', 'R19.8')
+twin('c19-lazy-commuted', 'C19', SD, f'{DQ}.GetDataItemWithMaxGlobalR', 'while bestItem[1] != bestItem[0].globalR:',
+     'while bestItem[0].globalR != bestItem[1]:')
+twin('c19-lazy-unpacked', 'C19', SD, f'{DQ}.GetDataItemWithMaxGlobalR', 'while bestItem[1] != bestItem[0].globalR:',
+     'while not (bestItem[1] == bestItem[0].globalR):')
